@@ -58,7 +58,8 @@ pub enum Op {
     MarkDirty { reg: u16, off: u32, len_kind: u8 },
     AddUsed { idx: u16 },
     SetTable { layout: Vec<(u8, u8)> },
-    AddRegion { gap: u8, npages: u8 },
+    /// hot-plug a region above the highest one, or (below = true) under the lowest one / into the first gap that fits
+    AddRegion { gap: u8, npages: u8, #[serde(default)] below: bool },
     RemRegion { reg: u16 },
 }
 
@@ -180,7 +181,7 @@ fn run_generic<V: VringT<GM> + Clone + Send + Sync + 'static>(ctx: &mut Ctx, h: 
     };
     // does the current log window cover guest page `last_page`?
     let log_covers = |logs: &[LogFile], cur: Option<usize>, last_page: u64| -> bool { cur.map(|c| last_page / 8 < logs[c].size).unwrap_or(true) };
-    let lay = build_layout(&h.layout, 1);
+    let lay = build_layout(&h.layout, 24);
     regions = set_table(&mut s, &mut files, &lay)?.ok_or("initial SET_MEM_TABLE of a sorted disjoint page-aligned table was refused")?;
     // ring 0: used ring near the end of region 0's first page so that used elements cross into page 1
     let setup_ring = |s: &mut Sess<V>, r0: &Region| -> Result<bool, String> {
@@ -395,13 +396,23 @@ fn run_generic<V: VringT<GM> + Clone + Send + Sync + 'static>(ctx: &mut Ctx, h: 
                 }
                 ctx.class("table_replaced");
             }
-            Op::AddRegion { gap, npages } => {
+            Op::AddRegion { gap, npages, below } => {
                 let end_page = regions.iter().map(|r| (r.gpa + r.size) / PAGE).max().unwrap_or(1);
                 let mut page = end_page + *gap as u64 % 4;
                 if page % 8 == 0 {
                     page += 1;
                 }
-                let n = (*npages as u64 % 20).max(1);
+                let mut n = (*npages as u64 % 20).max(1);
+                if *below {
+                    // under the lowest region (hot-plugged memory is not always the highest)
+                    let low_page = regions.iter().map(|r| r.gpa / PAGE).min().unwrap_or(64);
+                    let end = low_page.saturating_sub(*gap as u64 % 4);
+                    if end >= 2 {
+                        n = n.min(end - 1);
+                        page = end - n;
+                        ctx.class("region_added_below_the_lowest");
+                    }
+                }
                 files.push(memfd(n * PAGE));
                 let fi = files.len() - 1;
                 let gpa = page * PAGE;
@@ -576,7 +587,7 @@ fn op_strategy() -> impl Strategy<Value = Op> {
         3 => (any::<u16>(), any::<u32>(), 0u8..6).prop_map(|(reg, off, len_kind)| Op::MarkDirty { reg, off, len_kind }),
         2 => any::<u16>().prop_map(|idx| Op::AddUsed { idx }),
         1 => proptest::collection::vec((0u8..6, 1u8..40), 1..=4).prop_map(|layout| Op::SetTable { layout }),
-        1 => (0u8..4, 1u8..20).prop_map(|(gap, npages)| Op::AddRegion { gap, npages }),
+        2 => (0u8..4, 1u8..20, any::<bool>()).prop_map(|(gap, npages, below)| Op::AddRegion { gap, npages, below }),
         1 => any::<u16>().prop_map(|reg| Op::RemRegion { reg }),
     ]
 }
